@@ -1057,8 +1057,10 @@ static bool canResend(ssl_t *ssl)
 
     if (ssl->flags & SSL_FLAGS_SERVER)
     {
-        if (ssl->hsState == SSL_HS_FINISHED)
-            canSend = 1;
+        /* In FINISHED state only a resumed handshake is on a flight boundary
+           (handled below).  In a full handshake the server has parsed the
+           ClientKeyExchange, so the client has the hello flight, and the
+           ephemeral key needed to rebuild that flight is already freed. */
 
         if (ssl->hsState == SSL_HS_CLIENT_HELLO)
         {
